@@ -588,6 +588,7 @@ type Contract struct {
 	Blocking  bool   // channel sends in this body may block by design (rendezvous); no nonblocking obligation
 	EntryHeld []Expr // locks the caller holds when it calls this function (`entry-held x.mu`): held exactly once at entry
 	AssumePre bool   // callee preconditions and run-time checks of this body are assumed, not checked (listed as unchecked)
+	Inline    bool   // the contract is verified for the body, but callers still inline the body (keeps dispatch precise)
 	LockOnly  bool   // only the lock obligations (C18) are generated for the body; everything else is assumed
 	Ghost     string // free-form note
 	Fresh     []string
@@ -670,7 +671,7 @@ func parseTags(s string) (props []string, label string, rest string) {
 }
 
 var clauseKW = map[string]bool{"requires": true, "ensures": true, "assigns": true, "pure": true, "trusted": true, "loop": true,
-	"at-call": true, "func": true, "spec": true, "ghost": true, "lemma": true, "axiom": true, "iterated": true, "signal": true, "fresh": true, "cover": true, "nobody": true, "lockonly": true, "assume-callee-pre": true, "entry-held": true, "blocking": true, "chaninv": true, "guarded": true, "ghost-set": true, "moninv": true, "opaque": true, "iterates": true}
+	"at-call": true, "func": true, "spec": true, "ghost": true, "lemma": true, "axiom": true, "iterated": true, "signal": true, "fresh": true, "cover": true, "nobody": true, "lockonly": true, "inline-at-calls": true, "assume-callee-pre": true, "entry-held": true, "blocking": true, "chaninv": true, "guarded": true, "ghost-set": true, "moninv": true, "opaque": true, "iterates": true}
 
 // LoadContractFile parses one contract file. pkgPath qualifies short function keys ("" for spec files,
 // whose keys are already fully qualified).
@@ -935,6 +936,8 @@ func (cs *ContractSet) LoadContractText(text, path, pkgPath string, external boo
 				cur.NoBody = true
 			case "lockonly":
 				cur.LockOnly = true
+			case "inline-at-calls":
+				cur.Inline = true
 			case "assume-callee-pre":
 				cur.AssumePre = true
 			case "entry-held":
